@@ -20,7 +20,7 @@ STUBS = ["pysam.AlignmentFile / AlignedSegment -> contract stubs: header['RG'] l
 ASSUMES = ["the expected matrix is a z3 term over ALL read variables (fold over alignments in file order); the obligation is pc => expected == observed, so attributes the code never looked at are universally quantified",
            "bases range over {REF, ALT, N}; read names over 2 values; 3 read groups (two for sample A, one for sample B)"]
 BOUNDS = {"quick": "read probabilities: every call pattern of 2 reads x 2 SNVs (2 and 3 alleles) with a symbolic error rate; SNV file vs FASTA: 2 records (thorough 3) at 2 positions, possibly sharing one, and 3 records at one position (a tri-allelic site split per ALT), REF in {A,C}, any ALT, FASTA bases in {A,C}, sequence-first and variants-first; 2 alignments x 1 SNV, read groups {rg0->A, rg2->B}, bases {REF, ALT} (thorough: 3 read groups, bases {REF, ALT, N}), four combinations of the keep flags (thorough: all eight), MAPQ and threshold symbolic in 0..2, id field SM and ID, either sample; pool of two samples; reference mismatch injected at any aligned site; command line -> extract_read_variants / encode_read_distributions for assemble, call, call-exact, call-pedigree: 64 option settings each (3 keep flags x 4 mapping qualities incl. 0 x {defaults, read-group field ID + explicit error rate + phred scores}) on the repository's test files, arguments bound through the callees' own signatures",
-          "thorough": "2 alignments x 1 SNV on the wide domain (3 read groups, bases {REF, ALT, N}; all eight keep-flag settings, each sample / read-group id, reference mismatch injected) and 3 alignments x 1 SNV on the small domain (keep flags all on / all off, mismatch); SNV file vs FASTA with 3 records; shared-file layouts on the wide domain; 2 alignments x 2 SNVs was sized at > 25 CPU-minutes per configuration and is outside the tier"}
+          "thorough": "2 alignments x 1 SNV on the wide domain (3 read groups, bases {REF, ALT, N}; all eight keep-flag settings for one sample, the default setting for each other sample / read-group id, reference mismatch injected) and 3 alignments x 1 SNV on the small domain for one sample (keep flags all on / all off, mismatch); SNV file vs FASTA with 3 records; shared-file layouts on the wide domain; 2 alignments x 2 SNVs was sized at > 25 CPU-minutes per configuration and is outside the tier"}
 OUTSIDE = "htslib decoding, CIGAR handling, fetch overlap semantics, CRAM reference lookup (pysam); phred-based probabilities (float)"
 TASKS_PER_CHILD = 2
 RGS = [dict(ID="rg0", SM="A"), dict(ID="rg1", SM="A"), dict(ID="rg2", SM="B")]
@@ -48,8 +48,10 @@ def configs(tier):
     for k, ns, small in [(2, 1, False), (3, 1, True)]:
         for idf in ("SM", "ID"):
             for want in (("A", "B") if idf == "SM" else ("rg0", "rg2")):
-                # three alignments are ~5x the cost of two: all eight keep-flag settings for k = 2, the two extreme ones for k = 3
-                for skips in (itertools.product((False, True), repeat=3) if k == 2 else [(True, True, True), (False, False, False)]):
+                full = (k == 2 and idf == "SM" and want == "A")  # all eight keep-flag settings once; elsewhere the default setting
+                if k == 3 and not (idf == "SM" and want == "A"):
+                    continue  # three alignments are ~5x the cost of two: one sample / id field
+                for skips in (itertools.product((False, True), repeat=3) if full else ([(True, True, True), (False, False, False)] if k == 3 else [(True, True, True)])):
                     out.append(dict(group="extract", k=k, ns=ns, idf=idf, want=want, mismatch=False, skips=list(skips), small=small))
                 out.append(dict(group="extract", k=k, ns=ns, idf=idf, want=want, mismatch=True, skips=[True, True, True], small=small))
     out.append(dict(group="encode", k=2, ns=1, small=False))
